@@ -38,7 +38,7 @@ pub static DEF: PropDef = PropDef {
         "process death only: the operating system and the disk survive (WAL, synchronous=NORMAL), power loss is out of reach",
         "a synchronised batch is several write requests (rows, then references): all-or-nothing is checked per request, as the property states it",
     ],
-    cases: |t| t.pick(66, 1500),
+    cases: |t| t.pick(132, 1500),
     shards: |t| t.pick(11, 16),
     case_budget_s: |_| 240,
     min_conclusive: |t| t.pick(30, 700),
